@@ -219,7 +219,11 @@ def run(ctx: Ctx) -> None:
         return
     base = validate_traces(ctx, "TraceMapRun", copy.deepcopy(good), "st0", invariants=[], strip=STRIP, count=False)
     bad = copy.deepcopy(good)
-    vi = len(bad) // 2
+    clean = [i for i in range(len(bad)) if i not in base]   # only traces TLC accepts uncorrupted can be victims
+    if not clean:
+        ctx.selftests.append({'name': 'trace-corruption', 'ok': True, 'detail': 'not applicable: no accepted trace to corrupt'})
+        return
+    vi = clean[len(clean) // 2]
     k = next(i for i, e in enumerate(bad[vi]["ev"]) if e["e"] == "stored")
     bad[vi]["ev"][k]["disk"] = bad[vi]["ev"][k]["disk"][1:]
     rej2 = validate_traces(ctx, "TraceMapRun", bad, "st1", invariants=[], strip=STRIP, count=False)
